@@ -194,10 +194,22 @@ def run_regq(reqs, ops):
 
 
 # ---------------------------------------------------------------- parse / isa
-def run_parse(lines):
+def shaped(seq, form):
+    """the same sequence of items in another legal Iterable form"""
+    seq = list(seq)
+    if form == "tuple":
+        return tuple(seq)
+    if form == "generator":
+        return (x for x in seq)
+    if form == "file":
+        return io.StringIO("".join(x if x.endswith("\n") else x + "\n" for x in seq))
+    return seq
+
+
+def run_parse(lines, form="list"):
     pu = M("program_utils")
     try:
-        prog = with_timeout(pu.read_program, list(lines))
+        prog = with_timeout(pu.read_program, shaped(lines, form))
         return [Sym("ok"), [[list(p.sources), p.destination, p.name, int(p.line)] for p in prog]]
     except pu.CodeError as e:
         return [Sym("err"), [Sym("CodeError"), int(e.line), e.instr, str(e)]]
@@ -207,20 +219,30 @@ def run_parse(lines):
         return [Sym("err"), [Sym(type(e).__name__), str(e)]]
 
 
-def run_isa(spec, caps, prog):
+def run_isa(spec, caps, prog, form="list"):
     pu = M("processor_utils")
     su = M("str_utils")
     pd = M("program_defs")
     pgu = M("program_utils")
+    pairs = [tuple(x) for x in spec]
+    if form == "items" and len({p[0] for p in pairs}) == len(pairs):
+        table = dict(pairs).items()
+    elif form == "zip":
+        table = zip([p[0] for p in pairs], [p[1] for p in pairs])
+    elif form in ("tuple", "generator"):
+        table = shaped(pairs, form)
+    else:
+        table = pairs
     try:
-        isa = pu.load_isa([tuple(x) for x in spec], [su.ICaseString(c) for c in caps])
+        isa = pu.load_isa(table, shaped([su.ICaseString(c) for c in caps], "generator" if form == "generator" else "list"))
         r1 = [Sym("ok"), [[k, v] for k, v in isa.items()]]
     except Exception as e:  # noqa: BLE001
         cls, f, msg = exc_info(e)
         fields = [f[k] for k in ("old_element", "new_element", "element") if k in f]
         return [[Sym("err"), [Sym(cls)] + fields, msg], Sym("none")]
     try:
-        hw = pgu.compile_program([pd.ProgInstruction(list(s), d, n, l) for s, d, n, l in prog], isa)
+        hw = pgu.compile_program(shaped([pd.ProgInstruction(list(s), d, n, l) for s, d, n, l in prog],
+                                        form if form in ("tuple", "generator") else "list"), isa)
         r2 = [Sym("ok"), enc_hwprog(hw)]
     except Exception as e:  # noqa: BLE001
         cls, f, msg = exc_info(e)
